@@ -359,7 +359,13 @@ func (c *Context) BindValidRequest(request *http.Request, route *MatchedRoute, b
 			requestContentType = "*/*"
 		}
 
-		if str := NegotiateContentType(request, route.Produces, requestContentType); str == "" {
+		// the request's own content type stands in only when the route declares nothing to produce: a declared
+		// produces list that the Accept header does not admit is a 406, with or without a body
+		defaultOffer := ""
+		if len(route.Produces) == 0 {
+			defaultOffer = requestContentType
+		}
+		if str := NegotiateContentType(request, route.Produces, defaultOffer); str == "" {
 			res = append(res, errors.InvalidResponseFormat(request.Header.Get(runtime.HeaderAccept), route.Produces))
 		}
 	}
